@@ -166,7 +166,8 @@ fn g_planar(rng: &mut Rng, _tier: Tier) -> Case {
             0 => -rng.dyadic(0.05, 1.0),
             _ => rng.dyadic(0.02, PI - 0.05),
         };
-        let aspect = rng.dyadic(0.25, 4.0);
+        // only a zero aspect is excluded by planar(); a negative one mirrors the window
+        let aspect = rng.dyadic(0.25, 4.0) * if rng.chance(1, 4) { -1.0 } else { 1.0 };
         let height = rng.dyadic(0.1, 20.0);
         let near = rng.dyadic(-5.0, 10.0);
         let far = near + rng.dyadic(0.1, 50.0);
@@ -263,11 +264,14 @@ pub fn native(cfg: &RunCfg, extra: &mut Extra) {
                     16 => ("planar aspect = 0", true, catch(|| planar(Rad(fovy.min(t(2.9))), t(0.0), h, near, far).is_finite())),
                     17 => ("planar near = far", true, catch(|| planar(Rad(fovy.min(t(2.9))), aspect, h, near, near).is_finite())),
                     18 => {
-                        // negative fovy puts the focal point at +h/(2 tan(|fovy|/2)); bracket it
+                        // negative fovy puts the focal point at +h/(2 tan(|fovy|/2)), positive fovy at
+                        // -h/(2 tan(fovy/2)) (planes at negative "near"/"far" lie behind the window); bracket it
                         let fv = fovy.min(t(2.9));
-                        let focal = h / (t(2.0) * (fv / t(2.0)).tan());
+                        let sign = if rng.bool() { t(1.0) } else { t(-1.0) };
+                        let focal = sign * h / (t(2.0) * (fv / t(2.0)).tan());
                         let (n2, f2) = if rng.bool() { (focal * t(0.5), focal * t(2.0)) } else { (focal * t(2.0), focal * t(0.5)) };
-                        ("planar focal point between the planes", true, catch(|| planar(Rad(-fv), aspect, h, n2, f2).is_finite()))
+                        let (n2, f2) = if rng.chance(1, 3) { (focal - t(1.0), focal + t(3.0)) } else { (n2, f2) };
+                        ("planar focal point between the planes", true, catch(|| planar(Rad(-sign * fv), aspect, h, n2, f2).is_finite()))
                     }
                     _ => {
                         // fovy = 0: orthographic limit, exact with power-of-two parameters
@@ -314,12 +318,13 @@ pub fn native(cfg: &RunCfg, extra: &mut Extra) {
     // ranges, so only a numerically unsound formula (or a wrong one) can fire.
     let mut worst = [0f64; 2];
     macro_rules! accuracy {
-        ($T:ty, $tag:expr, $tol:expr, $slot:expr) => {{
+        ($T:ty, $tag:expr, $tol:expr, $slot:expr, $minfov:expr) => {{
             'acc: for i in 0..n {
                 let mut rng = Rng::for_case(cfg.seed, concat!("c10_accuracy_", $tag), i);
                 let t = |x: f64| x as $T;
-                let fovy = t(rng.uniform(0.05, std::f64::consts::PI - 0.01));
-                let aspect = t(rng.uniform(0.25, 4.0));
+                // one case in three: telephoto fields of view, log-uniform down to $minfov rad
+                let fovy = if rng.chance(1, 3) { t(10f64.powf(rng.uniform($minfov, -1.3))) } else { t(rng.uniform(0.05, std::f64::consts::PI - 0.01)) };
+                let aspect = t(rng.uniform(0.25, 4.0)) * if rng.chance(1, 4) { t(-1.0) } else { t(1.0) };
                 let near = t(rng.uniform(0.05, 10.0));
                 let far = near * t(rng.uniform(1.5, 100.0));
                 let r = catch(|| {
@@ -380,12 +385,12 @@ pub fn native(cfg: &RunCfg, extra: &mut Extra) {
             }
         }};
     }
-    accuracy!(f32, "f32", 1e-4, 0);
-    accuracy!(f64, "f64", 1e-11, 1);
+    accuracy!(f32, "f32", 1e-4, 0, -3.0);
+    accuracy!(f64, "f64", 1e-11, 1, -7.0);
     extra.sections.insert(
         "native_corner_accuracy".into(),
         json!({"cases_per_type": n, "worst_error_f32": worst[0], "tolerance_f32": 1e-4, "worst_error_f64": worst[1], "tolerance_f64": 1e-11,
-               "parameters": "fovy in [0.05, pi-0.01], aspect in [0.25,4], near in [0.05,10], far/near in [1.5,100]"}),
+               "parameters": "fovy in [0.05, pi-0.01] or (one in three) log-uniform 1e-3..0.05 (f32) / 1e-7..0.05 (f64), aspect in +-[0.25,4], near in [0.05,10], far/near in [1.5,100]"}),
     );
     extra.evaluations += evals;
     extra.distinct_nontrivial += distinct.len() as u64;
